@@ -267,6 +267,13 @@ Definition is_recording_key (c : cfg) (k : str) : bool :=
 Definition independent (c c' : cfg) : Prop :=
   prefixb (np c) (np c') = false /\ prefixb (np c') (np c) = false.
 
+(** weaker and decidable: the two cassettes' recording-key prefixes are pairwise incomparable, so no
+    key is a recording key of both (holds for "" / "a", "a" / "ab", "a" / "a/b"; fails for "a" / "a/full") *)
+Definition incomparable (a b : str) : bool := negb (prefixb a b) && negb (prefixb b a).
+Definition key_disjoint (c c' : cfg) : bool :=
+  incomparable (full_key (np c) []) (full_key (np c') []) && incomparable (full_key (np c) []) (meta_key (np c') []) &&
+  incomparable (meta_key (np c) []) (full_key (np c') []) && incomparable (meta_key (np c) []) (meta_key (np c') []).
+
 (** recordings in the serializer's faithful domain *)
 Definition rec_wf (r : recording) : bool :=
   str_ok (r_id r) && wf (VDict (r_data r)) && wf (VDict (r_meta r)).
